@@ -238,7 +238,7 @@ class ModelObject:
         elif type_ == "array":
             from autofit.mapper.prior_model.array import Array
 
-            return Array.from_dict(d)
+            return Array.from_dict(d, loaded_ids=loaded_ids)
         else:
             try:
                 return Prior.from_dict(d, loaded_ids=loaded_ids)
